@@ -252,8 +252,8 @@ def _scratch_copy(repo):
     return d
 
 
-def evaluate(pid, module, facts, cfg="capi"):
-    ctx = Ctx(facts, cfg, "quick")
+def evaluate(pid, module, facts, cfg="capi", repo="/repo"):
+    ctx = Ctx(facts, cfg, "quick", repo)
     insts = []
     for (rid, fn, floor, capi_only) in module.RULES:
         try:
@@ -303,7 +303,7 @@ def run_sensitivity(pid, module, repo="/repo", only=None, verbose=True):
                 if verbose:
                     print("SENSITIVITY %s %s: skipped, mutant does not build: %s" % (pid, os.path.basename(p), str(e)[-300:]))
                 continue
-            insts = evaluate(pid, module, facts)
+            insts = evaluate(pid, module, facts, repo=d)
             known = {k["key"] for k in load_known() if k.get("property") == pid and k.get("status") == "known"}
             bad = [i for i in insts if i.verdict != "holds" and i.full_key not in known]
             ran += 1
